@@ -142,7 +142,7 @@ func ruleXZReaderChecks(c *Ctx, r *Report, prefix string) {
 		}, "check id data[9] validated by verifyFlags")
 		// backward size: (uint32LE(data[4:]) + 1) * 4 is what reaches footer.indexSize
 		okBS := false
-		for _, b := range fn.Blocks {
+		for _, b := range theCtx.GB(fn) {
 			for _, ins := range b.Instrs {
 				st, ok := ins.(*ssa.Store)
 				if !ok {
@@ -160,7 +160,7 @@ func ruleXZReaderChecks(c *Ctx, r *Report, prefix string) {
 		r.Check(okBS, rule, "V09-backward-size:"+FnName(fn), c.Pos(fn.Pos()), "index size = (stored backward size + 1) * 4 from data[4:8]",
 			"footer.UnmarshalBinary does not compute the index size as (uint32LE(data[4:])+1)*4")
 		flagsStored := false
-		for _, b := range fn.Blocks {
+		for _, b := range theCtx.GB(fn) {
 			for _, ins := range b.Instrs {
 				if st, ok := ins.(*ssa.Store); ok {
 					if fa, ok := st.Addr.(*ssa.FieldAddr); ok && fieldOfAddr(fa) != nil && fieldOfAddr(fa).Name() == "flags" && roleByte(data, 9)(st.Val) {
@@ -222,11 +222,11 @@ func ruleXZReaderChecks(c *Ctx, r *Report, prefix string) {
 		}, func(v ssa.Value) bool { return u(v) && !recLen(v) }, token.NEQ, "record count truncated by conversion to int")
 		// the make of the record slice is dominated by the count check
 		if g != nil {
-			for _, b := range fn.Blocks {
+			for _, b := range theCtx.GB(fn) {
 				for _, ins := range b.Instrs {
 					if ms, ok := ins.(*ssa.MakeSlice); ok {
 						if _, isRec := ms.Type().Underlying().(*types.Slice).Elem().Underlying().(*types.Struct); isRec {
-							good := g.iff.Block().Dominates(b) && b != g.iff.Block()
+							good := theCtx.Dom(g.iff.Block(), b) && b != g.iff.Block()
 							r.Check(good, rule, "V12-alloc-after-check:"+FnName(fn), c.InstrPos(ins), "record slice allocated only after the count was validated",
 								"the record slice is allocated from the stored count before the count is validated (allocation of attacker-chosen size)")
 						}
@@ -256,7 +256,7 @@ func ruleXZReaderChecks(c *Ctx, r *Report, prefix string) {
 		// V15: CRC32 of the index, taken before the stored CRC is read
 		var sum32 *ssa.Call
 		var crcRead *ssa.Call
-		for _, b := range fn.Blocks {
+		for _, b := range theCtx.GB(fn) {
 			for _, ins := range b.Instrs {
 				call, ok := ins.(*ssa.Call)
 				if !ok {
@@ -275,7 +275,7 @@ func ruleXZReaderChecks(c *Ctx, r *Report, prefix string) {
 				call, ok := stripConv(v).(*ssa.Call)
 				return ok && call.Call.StaticCallee() == uint32LE
 			}, roleIs(sum32), token.NEQ, "stored index CRC32 != CRC32 computed over the index")
-			good := crcRead != nil && sum32.Block().Dominates(crcRead.Block()) && (sum32.Block() != crcRead.Block() || instrBefore(sum32, crcRead))
+			good := crcRead != nil && theCtx.Dom(sum32.Block(), crcRead.Block()) && (sum32.Block() != crcRead.Block() || instrBefore(sum32, crcRead))
 			r.Check(good, rule, "V15-index-crc-order:"+FnName(fn), c.InstrPos(sum32), "the CRC is taken before the stored CRC bytes pass through the tee reader",
 				"the index CRC32 is taken after the stored CRC bytes were read through the tee reader: it would cover its own bytes")
 			// the hash is seeded with the index indicator byte
@@ -380,7 +380,7 @@ func ruleXZReaderChecks(c *Ctx, r *Report, prefix string) {
 				return roleBinOp(token.NEQ, roleBinOp(token.AND, flags, roleConst(mask)), roleConst(0))
 			}
 			var calls []*ssa.Call
-			for _, b := range fn.Blocks {
+			for _, b := range theCtx.GB(fn) {
 				for _, ins := range b.Instrs {
 					if call, ok := ins.(*ssa.Call); ok && call.Call.StaticCallee() == rsb {
 						calls = append(calls, call)
@@ -420,7 +420,7 @@ func ruleXZReaderChecks(c *Ctx, r *Report, prefix string) {
 		}, "filter properties validated by the filter's UnmarshalBinary")
 		// the properties handed over are {0x21, next two bytes of the header}
 		okRead := false
-		for _, b := range fn.Blocks {
+		for _, b := range theCtx.GB(fn) {
 			for _, ins := range b.Instrs {
 				if call, ok := ins.(*ssa.Call); ok && stdCalleeName(call) == "io.ReadFull" {
 					ref, ok := sliceRefOf(call.Call.Args[1])
@@ -454,7 +454,7 @@ func ruleXZReaderChecks(c *Ctx, r *Report, prefix string) {
 		gC := o.rel("V24-compressed-lower", mc, dc, token.LSS, "block ended with fewer consumed bytes than declared")
 		// the measured size is advanced by exactly what was delivered
 		okAdv := false
-		for _, b := range fn.Blocks {
+		for _, b := range theCtx.GB(fn) {
 			for _, ins := range b.Instrs {
 				if st, ok := storeToField(ins, fBRn); ok {
 					if roleBinOp(token.ADD, roleFieldLoad(fBRn), roleExtract(func(v ssa.Value) bool {
@@ -662,7 +662,7 @@ func ruleXZReaderChecks(c *Ctx, r *Report, prefix string) {
 					if gd.op == token.NEQ {
 						succ = gd.iff.Block().Succs[1]
 					}
-					if succ == tailCall.Block() || succ.Dominates(tailCall.Block()) {
+					if succ == tailCall.Block() || theCtx.Dom(succ, tailCall.Block()) {
 						okDom = true
 					}
 				}
@@ -672,7 +672,7 @@ func ruleXZReaderChecks(c *Ctx, r *Report, prefix string) {
 		// every finished block contributes its measured record, and gets a fresh hash
 		if rec != nil && newBR != nil && fSRIndex != nil {
 			okRec := false
-			for _, b := range fn.Blocks {
+			for _, b := range theCtx.GB(fn) {
 				for _, ins := range b.Instrs {
 					if st, ok := storeToField(ins, fSRIndex); ok {
 						if ap, ok := st.Val.(*ssa.Call); ok {
@@ -687,7 +687,7 @@ func ruleXZReaderChecks(c *Ctx, r *Report, prefix string) {
 				"the measured record of a finished block is not appended to streamReader.index: the index comparison would be vacuous")
 			fNewHash := c.Field("", "streamReader.newHash")
 			okHash := false
-			for _, b := range fn.Blocks {
+			for _, b := range theCtx.GB(fn) {
 				for _, ins := range b.Instrs {
 					if call, ok := callTo(ins, newBR); ok {
 						h := call.Call.Args[len(call.Call.Args)-1]
@@ -714,7 +714,7 @@ func ruleUnpaddedSize(c *Ctx, r *Report, rule string, fn *ssa.Function, fHL, fCo
 		return
 	}
 	var ret *ssa.Return
-	for _, b := range fn.Blocks {
+	for _, b := range theCtx.GB(fn) {
 		for _, ins := range b.Instrs {
 			if x, ok := ins.(*ssa.Return); ok {
 				ret = x
@@ -771,7 +771,7 @@ func instrOrder(a, b *ssa.Call) bool {
 	if a.Block() == b.Block() {
 		return instrBefore(a, b)
 	}
-	return a.Block().Dominates(b.Block())
+	return theCtx.Dom(a.Block(), b.Block())
 }
 
 func extractStoredTo(call *ssa.Call, idx int, f *types.Var) bool {
@@ -907,7 +907,7 @@ func checkStore(c *Ctx, r *Report, rule string, fn *ssa.Function, f *types.Var, 
 		return
 	}
 	ok := false
-	for _, b := range fn.Blocks {
+	for _, b := range theCtx.GB(fn) {
 		for _, ins := range b.Instrs {
 			if st, isSt := storeToField(ins, f); isSt && val(st.Val) {
 				ok = true
